@@ -245,7 +245,16 @@ def are_d_separated(
 
     # Filter to ancestors
     keep = graph.ancestors_inclusive(named)
-    evidence_graph = graph.subgraph(keep).moralize().disorient()
+    ancestral_graph = graph.subgraph(keep)
+    evidence_graph = ancestral_graph.moralize().disorient()
+    # A bidirected edge stands for a latent common cause, so all nodes joined by a path
+    # on which every intermediate node is a collider have to be married as well: these
+    # are the members of a district together with the parents of its members
+    for district in ancestral_graph.districts():
+        family = set(district)
+        for node in district:
+            family.update(ancestral_graph.directed.predecessors(node))
+        evidence_graph.add_edges_from(combinations(sorted(family, key=str), 2))
 
     keep = set(evidence_graph.nodes) - set(conditions)
     evidence_graph = evidence_graph.subgraph(keep)
